@@ -5583,6 +5583,12 @@ class Arc(Curve):
             sweep_limit = tau / 12.0
             arc_required = int(ceil(abs(self.sweep) / sweep_limit))
         if arc_required == 0 or self.sweep == 0:
+            if self.sweep == 0 and self.start != self.end:
+                # Zero radius: the arc is the straight line between its end points (SVG F.6.2).
+                middle = Point(
+                    (self.start.x + self.end.x) / 2.0, (self.start.y + self.end.y) / 2.0
+                )
+                yield QuadraticBezier(self.start, middle, self.end)
             return  # an arc of zero extent draws nothing
         t_slice = self.sweep / float(arc_required)
 
@@ -5618,6 +5624,16 @@ class Arc(Curve):
             sweep_limit = tau / 12.0
             arc_required = int(ceil(abs(self.sweep) / sweep_limit))
         if arc_required == 0 or self.sweep == 0:
+            if self.sweep == 0 and self.start != self.end:
+                # Zero radius: the arc is the straight line between its end points (SVG F.6.2).
+                dx = (self.end.x - self.start.x) / 3.0
+                dy = (self.end.y - self.start.y) / 3.0
+                yield CubicBezier(
+                    self.start,
+                    Point(self.start.x + dx, self.start.y + dy),
+                    Point(self.end.x - dx, self.end.y - dy),
+                    self.end,
+                )
             return  # an arc of zero extent draws nothing
         t_slice = self.sweep / float(arc_required)
 
